@@ -526,7 +526,9 @@ def r4(ctx, R):
                             for st in ctx.m.walk_own(g.node):
                                 if isinstance(st, ast.Assign) and isinstance(st.targets[0], ast.Attribute) and st.targets[0].attr in tails:
                                     v = st.value
-                                    if isinstance(v, ast.Call) and isinstance(v.func, ast.Attribute) and v.func.attr == "pop":
+                                    alts = [v.body, v.orelse] if isinstance(v, ast.IfExp) else [v]
+                                    is_pop = lambda x: isinstance(x, ast.Call) and isinstance(x.func, ast.Attribute) and x.func.attr == "pop"
+                                    if any(is_pop(x) for x in alts) and all(is_pop(x) or isinstance(x, ast.Constant) and x.value is None for x in alts):
                                         progress[i] = f"{unparse(c)} pops the tested state ({st.targets[0].attr})"
             # can the head be reached from itself without a progress node?
             blocked = set(progress)
